@@ -181,3 +181,28 @@ CHECKS["C16"] = (
     "DESIGN.md#6-build-report",
 )
 NA.pop("C16", None)
+
+# ---------------------------------------------------------------------------------------------------------------------
+# Addenda (second half of the build): rules added after the benign-refactor and round-3 seeded-change experiments, and
+# the common policy.  Appended to the claim text of each check so that MANIFEST.json says what the check decides today.
+_POLICY = (" A violation is reported only on positive evidence (the shape the rule reasons about is recognised and the relation it demands is broken); a shape that is not "
+           "recognised is recorded as `not decided` in the evidence. Before a finding is reported it is re-decided on normal forms of the tree (private helpers inlined, "
+           "single-use locals folded, loops over literal tuples unrolled: sa/normalize.py), so that behaviour-preserving refactors do not fire.")
+_ADD = {
+    "C01": " R5 (normal transport in apply_transform) is decided on the value graph: the store is guarded by `not allclose(M[:3,:3], I)` and presence in the cache, every non-trivial alternative of its conformality guard contains allclose(L L^T / s, I), the stored value is unitize(transform_points(old normals, M, translate=False)).",
+    "C02": " Overrides installed from a table of names after the class body (`for n in NAMES: setattr(TrackedArray, n, factory(n))`) are analysed as the function the factory returns with the name bound: the table is compared with numpy's in-place entry points (R1) and the flag store must dominate the looked-up ndarray call (R2).",
+    "C04": " R7 also decides the identity shortcut of transform_points: a max-norm test of the whole matrix at <= 1e-8 (np.allclose / np.isclose with their default relative tolerance are reported). R4's flip guard is compared as normalised (atom, polarity) pairs. R10 treats det(M[:3,:3]) as s**3 (stub of the external call) whatever the locals are called.",
+    "C05": " R4's winding verdict of graph.is_watertight is evaluated on a finite model (one group of two equal sorted edges whose end points are symbols compared only for equality): opposed twins -> consistent, same-direction twins -> inconsistent, a collapsed edge (x, x) twice -> consistent.",
+    "C06": " R9: an argsort applied to data already permuted by another argsort asks for a stable kind (two-pass two-key sorts). R8 finds the neighbour mask by role (what reaches np.nonzero).",
+    "C08": " R9: text exporters format numbers with significant digits (`g`, `e`), never with a fixed number of decimals.",
+    "C11": " R13: in mesh_multiplane the normal handed to mesh_plane is unitized and the per-height plane origins and cached distances are built from that same unit normal.",
+    "C12": " S / P are decided on SSA value graphs and expression templates (row alignment of the result arrays and of the distances used to pick the first hit). S2: every range test on barycentric coordinates covers all three coordinates. S3: hits are de-duplicated with a key that contains the ray index.",
+    "C13": " N4: inside the run-length codecs an array allocated with the dtype of one operand does not receive another operand element-wise (silent narrowing of run values to the count type).",
+    "C15": " R9: Extrusion.area == 2 * area(profile) + |height| * total boundary length (holes included), Extrusion.volume == area(profile) * |height|, as terms of the value graph.",
+    "C16": " B2's axis re-ordering is decided by abstract interpretation in the domain of signed permutation matrices (sign, permutation) for each of the six orders of the extents, whether it is written inline or in a helper.",
+    "C19": " T15: rotation_from_matrix - for R = Rodrigues(angle, unit axis d) and eigenvector d, each of the three magnitude branches hands (sin, cos) of the very angle to arctan2 (numpy.linalg.eig / where / real are stubbed so that the unit eigenvector is d).",
+    "C20": " R6: every np.lib.stride_tricks.as_strided window over file bytes spans exactly the `count` its np.frombuffer base was created with (polynomial identity in the values read from the file), or an explicit test of that span against len(data) precedes it.",
+}
+for _pid in list(CHECKS):
+    _cat, _tech, _text, _note, _ref = CHECKS[_pid]
+    CHECKS[_pid] = (_cat, _tech, _text + _ADD.get(_pid, "") + _POLICY, _note, _ref)
